@@ -168,6 +168,11 @@ func runStruct(in, out string, rng *rand.Rand) {
 		if json.Unmarshal(sc.Bytes(), &s) != nil {
 			vio.Fatal("bad scenario")
 		}
+		if len(s.Chain) > 0 && rng.Intn(2) == 0 {
+			// a padding attribute of seeded size in front: handler buffers get all lengths / spare capacities
+			pad := item{Op: "with", F: []node{{T: "leaf", K: "pad", X: strings.Repeat("p", rng.Intn(48)), C: []node{}}}}
+			s.Chain = append([]item{pad}, s.Chain...)
+		}
 		c := &capture{}
 		l := logger.New(logger.NewJsonHandler(c, logger.NewOptions(logger.LevelInfo, false, false)))
 		for _, it := range s.Chain {
